@@ -1,6 +1,6 @@
 (* C20: the routing parser accepts the token sequence of every well-formed template and returns that template *)
 From Coq Require Import Lia NArith List Bool.
-From GB Require Import Model.Template Model.TemplateRun Proofs.MDFilterProofs.
+From GB Require Import Model.Template Model.TemplateRun Proofs.MDFilterProofs Proofs.TemplateProofs.
 (* tok_flat, good_lit, good_flat, good_seg, no_colon, verb_ok, good_template: Model/TemplateRun.v (the check evaluates them) *)
 Import ListNotations.
 Open Scope N_scope.
@@ -545,3 +545,23 @@ Example good_example :
                    t_verb := bb [119;58;120] |} = true.
 Proof. reflexivity. Qed.
 Print Assumptions parse_render.
+
+(* ---- templates of the language never nest variables: the matching theorems of C03 apply to all of them ---- *)
+Lemma good_seg_ok s : good_seg s = true -> Proofs.TemplateProofs.seg_ok s = true.
+Proof.
+  destruct s as [| |l|p inner]; intros G; try reflexivity.
+  cbn [good_seg] in G. apply andb_true_iff in G. destruct G as [_ Gi]. cbn [Proofs.TemplateProofs.seg_ok].
+  apply forallb_forall. intros x Hx. rewrite forallb_forall in Gi. specialize (Gi x Hx). destruct x; try reflexivity; discriminate.
+Qed.
+Lemma good_template_seg_ok t : good_template t = true -> forallb Proofs.TemplateProofs.seg_ok (t_segs t) = true.
+Proof.
+  unfold good_template. intros G. apply andb_true_iff in G. destruct G as [G _]. apply andb_true_iff in G. destruct G as [G _].
+  apply andb_true_iff in G. destruct G as [_ G]. apply forallb_forall. intros s Hs. rewrite forallb_forall in G. exact (good_seg_ok s (G s Hs)).
+Qed.
+
+(* from the TEXT of a binding's template to what it matches: the route compiled from render t behaves like t *)
+Theorem text_to_route t comps : good_template t = true ->
+  exists t', gw_parse false (render t) = Some t' /\ route_step false (compile t') (t_verb t') comps = spec_step t comps.
+Proof.
+  intros G. exists t. split; [exact (parse_render t G)|]. apply Proofs.TemplateProofs.route_step_spec. exact (good_template_seg_ok t G).
+Qed.
